@@ -65,6 +65,12 @@ package server
 //@ func (*fsm).isDominant
 //@   claims at-return
 //@   at-return requires ret0 <==> (localID > remoteID || (localID == remoteID && myAS > getASN(open)))
+// from C07 "every ... unexpected ... message ... yields the NOTIFICATION code/subcode and next state the RFCs prescribe": in
+// OpenConfirm anything but a KEEPALIVE (and but a NOTIFICATION, which is never answered) is an FSM error with the RFC
+// 6608 OpenConfirm subcode - the connection is not just closed
+//@ func (*fsmHandler).openconfirm
+//@   claims at-call
+//@   at-call ^bgp.NewBGPNotificationMessage(bgp.BGP_ERROR_FSM_ERROR requires arg1 == bgp.BGP_ERROR_SUB_RECEIVE_UNEXPECTED_MESSAGE_IN_OPENCONFIRM_STATE && m.Header.Type != bgp.BGP_MSG_KEEPALIVE && m.Header.Type != bgp.BGP_MSG_NOTIFICATION
 //@ func (*fsmHandler).established$2
 //@   claims at-call
 //@   at-call bgp.NewBGPNotificationMessage( requires len(arg2) == len(m.Body.(*bgp.BGPNotification).Data) + 2 && arg2[0] == m.Body.(*bgp.BGPNotification).ErrorCode && arg2[1] == m.Body.(*bgp.BGPNotification).ErrorSubcode
@@ -137,7 +143,11 @@ package server
 //@   ensures conf.Timers.State.KeepaliveInterval == (conf.Timers.State.NegotiatedHoldTime < conf.Timers.Config.HoldTime ? conf.Timers.State.NegotiatedHoldTime / 3 : conf.Timers.Config.KeepaliveInterval)
 //@ func (*fsm).stateChange
 //@   tag C08 C12 C07
-//@   claims at-call at-return
+//@   claims at-call at-return step
+// "kept ... until the per-family long-lived timer expires": that a family's long-lived timer has run out is a fact about
+// ONE loss - with the OPEN of a new session every family starts over, or the first timer to expire in a later cycle
+// finds "all expired" and cancels the timers of the other families
+//@   loop 0 step !conf.AfiSafis[i].LongLivedGracefulRestart.State.PeerRestartTimerExpired
 //@   at-call fsm.gConf.IsConfederationMember( requires conf.Timers.State.NegotiatedHoldTime == (float64(body.HoldTime) > conf.Timers.Config.HoldTime ? conf.Timers.Config.HoldTime : float64(body.HoldTime))
 //@   at-call fsm.gConf.IsConfederationMember( requires conf.Timers.State.KeepaliveInterval == (conf.Timers.State.NegotiatedHoldTime < conf.Timers.Config.HoldTime ? conf.Timers.State.NegotiatedHoldTime / 3 : conf.Timers.Config.KeepaliveInterval)
 // ... and the hold timer of OpenConfirm is already the negotiated one (RFC 4271 8.2.2, event 19: on receipt of the
